@@ -210,8 +210,8 @@ the operation satisfies `OpOK` in the driver's current state, its record offset 
 driver did exactly `step`. -/
 theorem hypotheses_checked_by_driver (ds : DState) (l : List String) (op : Op) (h : parseOp l = some op)
     (h1 : (driveStepOK ds l).2 ≠ "!hyp-opok") (h2 : (driveStepOK ds l).2 ≠ "!hyp-fresh") :
-    OpOK ds.s op ∧ (∀ row, op.newRow = some row → row.off ∉ ds.used) ∧
-    driveStepOK ds l = (⟨(step ds.s op).1, usedAfter ds.used op⟩, (step ds.s op).2) :=
+    OpOK ds.s op ∧ (∀ row, okRow ds.s op = some row → row.off ∉ ds.used) ∧
+    driveStepOK ds l = (⟨(step ds.s op).1, usedAfter ds.used ds.s op⟩, (step ds.s op).2) :=
   driveStepOK_checked ds l op h h1 h2
 
 /-- a concrete history for the non-vacuity examples: two indexes; commits; an Update that keeps
